@@ -475,7 +475,7 @@ func segSpread(seed int64, thorough bool, zoneCount int, part int) *segment {
 			direct = append(direct, g)
 			byKey[kz{k, z}] = append(byKey[kz{k, z}], g)
 			// the same (index, zone) through the other constructor, another prefix (only cheap indexes twice)
-			if k <= 300 || rnd.Intn(4) == 0 {
+			if (k <= 300 && (thorough || rnd.Intn(2) == 0)) || rnd.Intn(4) == 0 {
 				g2 := r.spreadByID("store-gateway-"+zname+"-", k, z, false)
 				direct = append(direct, g2)
 				byKey[kz{k, z}] = append(byKey[kz{k, z}], g2)
@@ -510,7 +510,7 @@ func segSpread(seed int64, thorough bool, zoneCount int, part int) *segment {
 	if thorough {
 		larger = []int{2000, 1200, 300}
 	} else {
-		larger = []int{2000, 300}
+		larger = []int{2000, 200}
 	}
 	var wholeFamilies []ev // logged at the end of the segment (they make the specification's state big)
 	for li, n := range larger {
@@ -878,14 +878,15 @@ func TestRecord(t *testing.T) {
 		sd := s()
 		jobs = append(jobs, func() *segment { return segPartitions(sd, true, 200) })
 	} else {
-		zcs := []int{1 + int(master.Int63n(3)), 4 + int(master.Int63n(5))}
+		// one short zone list of seeded length and the full list of 8 zones (every zone index 0..7 in every run)
+		zcs := []int{1 + int(master.Int63n(7)), 8}
 		for i, zc := range zcs {
 			sd, zc, i := s(), zc, i
 			jobs = append(jobs, func() *segment { return segSpread(sd, false, zc, i) })
 		}
 		sd1, sd2 := s(), s()
 		jobs = append(jobs, func() *segment { return segCluster(sd1, false, 3, 6) })
-		jobs = append(jobs, func() *segment { return segCluster(sd2, false, 1+int(sd2%2)*7, 4) })
+		jobs = append(jobs, func() *segment { return segCluster(sd2, false, 8-int(sd2%2)*7, 3) })
 		sd := s()
 		jobs = append(jobs, func() *segment { return segPartitions(sd, false, 48) })
 	}
@@ -933,9 +934,30 @@ func TestRecord(t *testing.T) {
 		res.Nontrivial += sg.nontrivial
 	}
 	res.AddExtra("trace_files", files)
+	// samples for the evidence: per segment the first call whose taken set is not empty (or a member's join), shortened
 	for _, sg := range segs {
-		if sg != nil && len(sg.events) > 3 {
-			res.Sample(map[string]any{"segment": sg.name, "events": len(sg.events), "first_gen": sg.events[1]})
+		if sg == nil {
+			continue
+		}
+		for _, e := range sg.events {
+			if e["ev"] != "call" {
+				continue
+			}
+			taken, _ := e["taken"].([]limb)
+			out, _ := e["out"].([]limb)
+			if len(taken) == 0 && e["member"] == -1 {
+				continue
+			}
+			head := func(l []limb) []limb {
+				if len(l) > 3 {
+					return l[:3]
+				}
+				return l
+			}
+			res.Sample(map[string]any{"segment": sg.name, "events": len(sg.events), "call": map[string]any{
+				"h": e["h"], "req": e["req"], "member": e["member"], "taken_n": len(taken), "taken_head": head(taken),
+				"out_n": len(out), "out_head": head(out), "panic": e["panic"]}})
+			break
 		}
 	}
 	res.Write(t)
